@@ -22,7 +22,7 @@ import (
 
 var World = dst.World{
 	Name:  "wire",
-	Props: []string{"C04", "C05", "C07", "C08", "C23", "C41", "C43"},
+	Props: []string{"C04", "C05", "C07", "C08", "C23", "C24", "C41", "C43"},
 	Run:   run,
 	Real: []string{"mtproto.Conn (Run, readLoop/consumeMessage, write path, ackLoop, pingLoop, saltLoop, Invoke, Ping, all handle* functions)", "rpc.Engine", "crypto client cipher (encrypt/decrypt, msg_key check)",
 		"proto.MessageIDGen / MessageIDBuf", "mtproto/salts.Salts", "proto containers/gzip/rpc_result decoding"},
@@ -35,7 +35,7 @@ func run(t *testing.T, tape *simrt.Tape, env dst.Env) *simrt.Outcome {
 		scen = simrt.Pick(tape, simrt.Cfg, "C04", "C05", "C07", "C08", "C23", "C41", "C43")
 	}
 	f := map[string]func(*testing.T, *simrt.Tape, dst.Env) *simrt.Outcome{
-		"C04": runC04, "C05": runC05, "C07": runC07, "C08": runC08, "C23": runC23, "C41": runC41, "C43": runC43,
+		"C04": runC04, "C05": runC05, "C07": runC07, "C08": runC08, "C23": runC23, "C24": runC24, "C41": runC41, "C43": runC43,
 	}[scen]
 	out := f(t, tape, env)
 	if out.HarnessErr == "" && out.Panic != "" {
@@ -366,6 +366,13 @@ func runC05(t *testing.T, tape *simrt.Tape, env dst.Env) *simrt.Outcome {
 			if err == nil || d != nil {
 				viol("C05.decrypt-accepted", "decrypt-accepted "+how, "DecryptFromBuffer accepted a ciphertext with %s (err=%v, data returned=%v)", how, err, d != nil)
 			}
+			// the other public entry point: an already framed message
+			var em crypto.EncryptedMessage
+			if em.Decode(&bin.Buffer{Buf: append([]byte(nil), f...)}) == nil {
+				if d2, err2 := cliCipher.Decrypt(fx.key, &em); err2 == nil || d2 != nil {
+					viol("C05.decrypt-accepted", "decrypt-accepted (Decrypt) "+how, "Cipher.Decrypt accepted a message with %s (err=%v, data returned=%v)", how, err2, d2 != nil)
+				}
+			}
 		}
 		ctx, cancel := context.WithCancel(context.Background())
 		defer cancel()
@@ -684,6 +691,23 @@ func runIDBuf(t *testing.T, tape *simrt.Tape, env dst.Env) *simrt.Outcome {
 				simrt.Violate("C07", "C07."+rule, rule, "MessageIDBuf(%d).Consume(%d) = %v; by the window rule (reject ids equal to one of the last %d accepted, or lower than all of them once %d are stored) it must be %v (remembered after the call: %v)", n, id, got, n, n, want, last)
 				return
 			}
+		}
+		// The read loop hands every frame to its own task: deliveries of one
+		// fresh id may run concurrently, and exactly one of them is the original.
+		fresh := int64(4*(3*n+50) + 1)
+		k := 2 + tape.Choose(simrt.Wl, 2)
+		res := make(chan bool, k)
+		for j := 0; j < k; j++ {
+			simrt.Go("consumer", func() { simrt.Send(0, res, buf.Consume(fresh)) })
+		}
+		accepted := 0
+		for j := 0; j < k; j++ {
+			if v, _ := simrt.Recv(0, res); v {
+				accepted++
+			}
+		}
+		if accepted != 1 {
+			simrt.Violate("C07", "C07.idbuf-accepted-replay", "idbuf-accepted-replay concurrent", "%d concurrent Consume(%d) calls of a fresh id: %d were accepted (want exactly 1)", k, fresh, accepted)
 		}
 	})
 }
